@@ -66,3 +66,10 @@ Fixpoint trace (c : cstate) (h : list call) : list (res * list (list Z)) :=
   | [] => []
   | x :: r => let '(c', out) := step c x in (out, uid_moms (moms c')) :: trace c' r
   end.
+
+(* operands are objects Cirq accepted: Operation (distinct qubits) and Moment (disjoint operations) *)
+Definition call_wf (x : call) : Prop :=
+  match x with
+  | CNew its _ | CInsert _ its _ | CAppend its _ => Forall item_wf its
+  | _ => True
+  end.
